@@ -61,6 +61,11 @@ func (env *SpecEnv) isEntryOld() bool { return true }
 
 type specErr string
 
+// termExpr lets an already evaluated value be passed where a spec expression is expected.
+type termExpr struct{ v SVal }
+
+func (t *termExpr) String() string { return "<term>" }
+
 func (x *Exec) evalBool(env *SpecEnv, e spec.Expr) *smt.Term {
 	v := x.eval(env, e)
 	if v.T.Sort != smt.Bool {
@@ -124,6 +129,8 @@ func (x *Exec) localByName(name string) *ssa.Alloc {
 func (x *Exec) eval(env *SpecEnv, e spec.Expr) SVal {
 	E := x.E
 	switch e := e.(type) {
+	case *termExpr:
+		return e.v
 	case *spec.IntLit:
 		bi, ok := new(big.Int).SetString(strings.ReplaceAll(e.Val, "_", ""), 0)
 		if !ok {
@@ -649,6 +656,33 @@ func (x *Exec) evalCall(env *SpecEnv, e *spec.Call) SVal {
 		t := smt.Select(env.heap(h), v.T)
 		x.typeFacts(env.S, t, pt.Elem(), 0)
 		return SVal{T: t, GT: pt.Elem()}
+	case "val":
+		// val(r): the struct value stored at (interior) reference r
+		v := arg(0)
+		st := v.GT
+		if p, ok := derefStruct(v.GT); ok {
+			st = p
+		}
+		if st == nil || !isStruct(st) || v.T.Sort != smt.Ref {
+			specFail("val() expects a reference to a struct")
+		}
+		hs := &State{heap: map[string]*smt.Term{}, cells: env.S.cells, env: env.S.env}
+		u := st.Underlying().(*types.Struct)
+		var fargs []*smt.Term
+		for i := 0; i < u.NumFields(); i++ {
+			fv := x.selField(env, v.T, st, u.Field(i).Name(), true)
+			if isStruct(u.Field(i).Type()) {
+				sub := x.eval(env, &spec.Call{Fun: &spec.Ident{Name: "val"}, Args: []spec.Expr{&termExpr{fv}}})
+				fargs = append(fargs, sub.T)
+			} else {
+				fargs = append(fargs, fv.T)
+			}
+		}
+		_ = hs
+		if len(fargs) == 0 {
+			fargs = append(fargs, smt.True)
+		}
+		return SVal{T: smt.Ctor(E.SortOf(st), fargs...), GT: st}
 	case "mapHas":
 		m, k := arg(0), arg(1)
 		if m.GT == nil {
